@@ -3,8 +3,8 @@
 import sys, os, shutil, json, glob
 prop, k, pdir, caught = sys.argv[1:5]
 needs = " ".join(sys.argv[5:])
-src = f"/tmp/seed-{prop}/out/{k}"
-dst = f"/verif/seeded/{prop}-{k}"
+src = os.environ.get("SEED_SRC", f"/tmp/seed-{prop}") + f"/out/{k}"
+dst = f"/verif/seeded/{prop}-{int(k) + int(os.environ.get('SEED_OFFSET', '0'))}"
 os.makedirs(dst, exist_ok=True)
 shutil.copy(f"{src}/patch.diff", f"{dst}/patch.diff")
 demo = sorted(glob.glob(f"{src}/demo*"))[0]
